@@ -74,6 +74,7 @@ class TxnFaults:
             # the broker this request went to dies; its partitions and coordinator roles move to the
             # other broker (metadata and FindCoordinator reflect that at once)
             other = [n for n in cluster.nodes if n != node][0]
+            cluster.down.discard(other)  # brokers fail one at a time: the one that failed earlier is back by now
             cluster.down.add(node)
             for tp, ld in list(cluster.leader.items()):
                 if ld == node:
